@@ -12,6 +12,11 @@ def revert(mid, commit, expect):
     M.append({"id": mid, "revert": commit, "expect": expect, "props": None, "file": None, "old": None, "new": None, "nth": None})
 
 
+def patch(mid, path, expect, props=None):
+    """Mutant = /repo with a unified diff (path relative to /verif) applied."""
+    M.append({"id": mid, "patch": path, "expect": expect, "props": props, "file": None, "old": None, "new": None, "nth": None})
+
+
 # ---- the repaired defects must be reported again if they come back
 revert("f1-migrate-polarity", "dc24079", "C13.R3")
 revert("f4-basic-wait-break", "4b9324e", "C01.R7")
@@ -296,3 +301,7 @@ m("c18-ladder-stage-skipped", "src/stream.c",
         ABTI_mem_finalize_local(p_newxstream);
     }""", "C18.R2")
 revert("f3-consume-int-overflow", "7a69f37", "C20.R4")
+
+# ---- seeded changes that led to new rules (kept as regression mutants)
+patch("s-c18b-revive-commit-early", "seeded/C18-B/patch.diff", "C18.R6")
+patch("s-c06d-release-conditional", "seeded/C06-D/patch.diff", "C06.R9")
